@@ -390,18 +390,26 @@ impl ThreadPool {
         let job = Box::new(f);
         // A job counts as busy from the moment it is queued, so that the decision to grow
         // does not depend on whether a worker already picked up an earlier job.
+        #[cfg(varlink_rust_verif)]
+        verif::probe(verif::Site::Enq, 0, self.workers.len());
         let busy = {
             let mut num_busy = self.num_busy.write().unwrap();
             *num_busy += 1;
             *num_busy
         };
         self.sender.send(Message::NewJob(job)).unwrap();
+        #[cfg(varlink_rust_verif)]
+        verif::probe(verif::Site::Enqd, busy, self.workers.len());
         if (busy > self.workers.len()) && (self.workers.len() < self.max_workers) {
             self.workers.push(Worker::new(
                 Arc::clone(&self.receiver),
                 Arc::clone(&self.num_busy),
             ));
+            #[cfg(varlink_rust_verif)]
+            verif::probe(verif::Site::Spawned, busy, self.workers.len());
         }
+        #[cfg(varlink_rust_verif)]
+        verif::probe(verif::Site::Grown, busy, self.workers.len());
     }
 
     pub fn num_busy(&self) -> usize {
@@ -412,6 +420,8 @@ impl ThreadPool {
 
 impl Drop for ThreadPool {
     fn drop(&mut self) {
+        #[cfg(varlink_rust_verif)]
+        verif::probe(verif::Site::DropBegin, 0, self.workers.len());
         for _ in &mut self.workers {
             self.sender.send(Message::Terminate).unwrap();
         }
@@ -421,6 +431,8 @@ impl Drop for ThreadPool {
                 thread.join().unwrap();
             }
         }
+        #[cfg(varlink_rust_verif)]
+        verif::probe(verif::Site::DropEnd, 0, 0);
     }
 }
 
@@ -431,15 +443,27 @@ struct Worker {
 impl Worker {
     fn new(receiver: Arc<Mutex<mpsc::Receiver<Message>>>, num_busy: Arc<RwLock<usize>>) -> Worker {
         let thread = thread::spawn(move || loop {
+            #[cfg(varlink_rust_verif)]
+            verif::probe(verif::Site::Wait, 0, 0);
             let message = receiver.lock().unwrap().recv().unwrap();
+            #[cfg(varlink_rust_verif)]
+            verif::probe(
+                verif::Site::Deq,
+                matches!(message, Message::Terminate) as usize,
+                0,
+            );
 
             match message {
                 Message::NewJob(job) => {
                     job.call_box();
+                    #[cfg(varlink_rust_verif)]
+                    verif::probe(verif::Site::JobDone, 0, 0);
                     {
                         let mut num_busy = num_busy.write().unwrap();
                         *num_busy -= 1;
                     }
+                    #[cfg(varlink_rust_verif)]
+                    verif::probe(verif::Site::BusyDec, 0, 0);
                 }
                 Message::Terminate => {
                     break;
@@ -449,6 +473,76 @@ impl Worker {
 
         Worker {
             thread: Some(thread),
+        }
+    }
+}
+
+/// Verification hooks (only with `--cfg varlink_rust_verif`): probe points in the worker pool
+/// that dispatch to an installable callback, which may block, and a thin public wrapper to
+/// drive the private pool without sockets.
+#[cfg(varlink_rust_verif)]
+pub mod verif {
+    use std::sync::atomic::{AtomicBool, Ordering};
+    use std::sync::{Arc, RwLock};
+
+    #[derive(Clone, Copy, Debug, PartialEq, Eq, Hash)]
+    pub enum Site {
+        /// execute(): before the job is counted and sent (b = workers)
+        Enq,
+        /// execute(): after the send (a = busy count used for the decision, b = workers)
+        Enqd,
+        /// execute(): a worker was added (b = workers)
+        Spawned,
+        /// execute(): about to return (b = workers)
+        Grown,
+        /// worker: about to wait for a message
+        Wait,
+        /// worker: received a message (a = 1 for Terminate)
+        Deq,
+        /// worker: the job returned
+        JobDone,
+        /// worker: busy counter decremented
+        BusyDec,
+        DropBegin,
+        DropEnd,
+    }
+
+    pub type Callback = Arc<dyn Fn(Site, usize, usize) + Send + Sync>;
+
+    static ACTIVE: AtomicBool = AtomicBool::new(false);
+    static CALLBACK: RwLock<Option<Callback>> = RwLock::new(None);
+
+    pub fn install(cb: Option<Callback>) {
+        let mut g = CALLBACK.write().unwrap();
+        ACTIVE.store(cb.is_some(), Ordering::SeqCst);
+        *g = cb;
+    }
+
+    #[inline]
+    pub fn probe(site: Site, a: usize, b: usize) {
+        if !ACTIVE.load(Ordering::Relaxed) {
+            return;
+        }
+        let cb = CALLBACK.read().unwrap().clone();
+        if let Some(cb) = cb {
+            cb(site, a, b);
+        }
+    }
+
+    pub struct Pool(super::ThreadPool);
+
+    impl Pool {
+        pub fn new(initial: usize, max: usize) -> Pool {
+            Pool(super::ThreadPool::new(initial, max))
+        }
+        pub fn execute<F: FnOnce() + Send + 'static>(&mut self, f: F) {
+            self.0.execute(f)
+        }
+        pub fn num_busy(&self) -> usize {
+            self.0.num_busy()
+        }
+        pub fn workers(&self) -> usize {
+            self.0.workers.len()
         }
     }
 }
